@@ -32,8 +32,9 @@ enum MethOut {
 #[derive(Debug, Deserialize)]
 struct RepIn<'a> {
     id: u32,
+    // zero-copy when the peer wrote the string without escapes, owned otherwise
     #[serde(borrow)]
-    tag: &'a str,
+    tag: std::borrow::Cow<'a, str>,
 }
 
 #[derive(Debug, ReplyError)]
@@ -70,10 +71,46 @@ struct Owed {
     num: i64,
     text: String,
     continues: Option<bool>,
+    /// How the scripted server spells the frame: 0 = serde_json's compact output (members in
+    /// alphabetical order); 1 = the other member order (`parameters` before `error` /
+    /// `continues`, as Go's encoder writes it) with blanks after separators; 2 = every `/` in
+    /// the text escaped as `\/`; 3 = both.
+    wire: u8,
 }
 
 impl Owed {
     fn frame(&self) -> Vec<u8> {
+        if self.wire != 0 {
+            // hand-written spelling; the text is lower-case ASCII plus '/', so only the solidus
+            // is ever escaped
+            // (declared errors keep their text unescaped: their `why` is a zero-copy `&str`, which no
+            // JSON decoder can fill from an escaped string)
+            let text = if self.wire >= 2 && (!self.error || self.service_error) { self.text.replace('/', "\\/") } else { self.text.clone() };
+            let (sp, reorder) = if self.wire % 2 == 1 { (" ", true) } else { ("", false) };
+            let params = if self.service_error {
+                format!("{{\"parameter\":{sp}\"{text}\"}}")
+            } else if self.error {
+                format!("{{\"code\":{sp}{},{sp}\"why\":{sp}\"{text}\"}}", self.num)
+            } else {
+                format!("{{\"id\":{sp}{},{sp}\"tag\":{sp}\"{text}\"}}", self.num)
+            };
+            let head = if self.service_error {
+                Some("\"error\":\"org.varlink.service.InvalidParameter\"".to_string())
+            } else if self.error && self.unit_error {
+                return b"{ \"error\" : \"org.example.Nope\" }".to_vec();
+            } else if self.error {
+                Some("\"error\":\"org.example.Bad\"".to_string())
+            } else {
+                self.continues.map(|c| format!("\"continues\":{sp}{c}"))
+            };
+            let p = format!("\"parameters\":{sp}{params}");
+            let s = match (head, reorder) {
+                (Some(h), true) => format!("{{{p},{sp}{h}}}"),
+                (Some(h), false) => format!("{{{h},{p}}}"),
+                (None, _) => format!("{{{p}}}"),
+            };
+            return s.into_bytes();
+        }
         let v = if self.service_error {
             json!({"error": "org.varlink.service.InvalidParameter", "parameters": {"parameter": self.text}})
         } else if self.error {
@@ -155,7 +192,8 @@ fn tag(t: &mut Tape, style: usize, salt: usize) -> String {
         _ => [t.draw(8), 200 + t.draw(120), t.draw(40)][t.draw(3)],
     };
     let alphabet = b"abcdefghijklmnopqrstuvwxyz";
-    (0..n).map(|i| alphabet[(i + salt) % 26] as char).collect()
+    // one text in three is path-like (a peer may write its '/' as "\\/")
+    (0..n).map(|i| if salt % 3 == 1 && i % 4 == 3 { '/' } else { alphabet[(i + salt) % 26] as char }).collect()
 }
 
 fn gen_scenario(t: &mut Tape, borrowed: bool) -> Scenario {
@@ -189,10 +227,10 @@ fn gen_scenario(t: &mut Tape, borrowed: bool) -> Scenario {
         let mut final_reply = |t: &mut Tape, owed: &mut Vec<Owed>, salt: &mut usize| {
             *salt += 1;
             match t.draw(5) {
-                0 => owed.push(Owed { service_error: false, error: true, unit_error: false, num: i as i64, text: tag(t, size_style, *salt), continues: None }),
-                1 => owed.push(Owed { service_error: false, error: true, unit_error: true, num: 0, text: String::new(), continues: None }),
-                2 => owed.push(Owed { service_error: false, error: false, unit_error: false, num: i as i64, text: tag(t, size_style, *salt), continues: Some(false) }),
-                _ => owed.push(Owed { service_error: false, error: false, unit_error: false, num: i as i64, text: tag(t, size_style, *salt), continues: None }),
+                0 => owed.push(Owed { service_error: false, error: true, unit_error: false, num: i as i64, text: tag(t, size_style, *salt), continues: None, wire: 0 }),
+                1 => owed.push(Owed { service_error: false, error: true, unit_error: true, num: 0, text: String::new(), continues: None, wire: 0 }),
+                2 => owed.push(Owed { service_error: false, error: false, unit_error: false, num: i as i64, text: tag(t, size_style, *salt), continues: Some(false), wire: 0 }),
+                _ => owed.push(Owed { service_error: false, error: false, unit_error: false, num: i as i64, text: tag(t, size_style, *salt), continues: None, wire: 0 }),
             }
         };
         match kind {
@@ -202,7 +240,7 @@ fn gen_scenario(t: &mut Tape, borrowed: bool) -> Scenario {
                 let k = t.draw(max_cont);
                 for _ in 0..k {
                     salt += 1;
-                    owed.push(Owed { service_error: false, error: false, unit_error: false, num: i as i64, text: tag(t, size_style, salt), continues: Some(true) });
+                    owed.push(Owed { service_error: false, error: false, unit_error: false, num: i as i64, text: tag(t, size_style, salt), continues: Some(true), wire: 0 });
                 }
                 final_reply(t, &mut owed, &mut salt);
             }
@@ -210,7 +248,14 @@ fn gen_scenario(t: &mut Tape, borrowed: bool) -> Scenario {
     }
     let mut foreign = Vec::new();
     for j in 0..t.draw(3) {
-        foreign.push(Owed { service_error: false, error: false, unit_error: false, num: 900 + j as i64, text: tag(t, 0, 77 + j), continues: None });
+        foreign.push(Owed { service_error: false, error: false, unit_error: false, num: 900 + j as i64, text: tag(t, 0, 77 + j), continues: None, wire: 0 });
+    }
+    // Spelling of each frame: mostly serde_json's; in one scenario of three every frame picks one
+    // of the four spellings.
+    if t.draw(3) == 2 {
+        for o in owed.iter_mut().chain(foreign.iter_mut()) {
+            o.wire = t.draw(4) as u8;
+        }
     }
     // One scenario in six: a reply is an org.varlink.service error. For C06 it answers the last
     // reply-bearing call (the stream ends at such an error; whether it should go on afterwards is
@@ -290,12 +335,12 @@ impl Prop for ChainProp {
                     let k = [CallKind::Plain, CallKind::Oneway, CallKind::More][w.tape.draw(3)];
                     calls.push(k);
                     let reply_style = w.tape.draw(4);
-                    let mk = |cont: Option<bool>, j: usize| Owed { service_error: false, error: false, unit_error: false, num: i as i64, text: format!("r{i}_{j}"), continues: cont };
+                    let mk = |cont: Option<bool>, j: usize| Owed { service_error: false, error: false, unit_error: false, num: i as i64, text: format!("r{i}_{j}"), continues: cont, wire: 0 };
                     match k {
                         CallKind::Oneway => {}
                         CallKind::Plain => {
                             if reply_style == 3 {
-                                owed.push(Owed { service_error: false, error: true, unit_error: false, num: i as i64, text: format!("e{i}"), continues: None })
+                                owed.push(Owed { service_error: false, error: true, unit_error: false, num: i as i64, text: format!("e{i}"), continues: None, wire: 0 })
                             } else {
                                 owed.push(mk(if reply_style == 1 { Some(false) } else { None }, 0))
                             }
@@ -306,7 +351,7 @@ impl Prop for ChainProp {
                                 owed.push(mk(Some(true), j));
                             }
                             if reply_style == 3 {
-                                owed.push(Owed { service_error: false, error: true, unit_error: true, num: 0, text: String::new(), continues: None })
+                                owed.push(Owed { service_error: false, error: true, unit_error: true, num: 0, text: String::new(), continues: None, wire: 0 })
                             } else {
                                 owed.push(mk(Some(false), 9))
                             }
@@ -317,7 +362,7 @@ impl Prop for ChainProp {
                 w.cfg = Cfg::plain();
                 w.cfg.bias = 3;
                 w.cfg.chunk = [Chunk::Whole, Chunk::Frame, Chunk::Byte][delivery].clone();
-                let foreign = if borrowed { vec![] } else { vec![Owed { service_error: false, error: false, unit_error: false, num: 900, text: "later".into(), continues: None }] };
+                let foreign = if borrowed { vec![] } else { vec![Owed { service_error: false, error: false, unit_error: false, num: 900, text: "later".into(), continues: None, wire: 0 }] };
                 (Scenario { calls, owed, foreign, via_proxy: false, pre_refused: vec![] }, format!("systematic delivery={delivery}"))
             } else {
                 w.cfg = Cfg::swarm(&mut w.tape);
@@ -438,7 +483,11 @@ impl Prop for ChainProp {
                                             }
                                             {
                                                 let text: Option<&str> = match &it {
-                                                    Ok(Ok(rep)) => rep.parameters().map(|p| p.tag),
+                                                    Ok(Ok(rep)) => rep.parameters().and_then(|p| match &p.tag {
+                                                        std::borrow::Cow::Borrowed(b) => Some(*b),
+                                                        // an owned copy cannot be disturbed by the buffer
+                                                        std::borrow::Cow::Owned(_) => None,
+                                                    }),
                                                     Ok(Err(ErrIn::Bad { why, .. })) => Some(*why),
                                                     _ => None,
                                                 };
